@@ -19,6 +19,7 @@ PROP = dict(
          "(GOMAXPROCS >= 4): the independent server must receive intact frames carrying exactly the multiset sent, per-goroutine "
          "order kept, and the wire bytes must equal the model's single continuous cipher over the frames in arrival order. "
          "go.adnl.magics: payloads BEGINNING with each TL magic the client treats specially (pong, ping, query, answer, auth nonce / authentificate / complete, key-id prefix) at lengths 3,4,8,11,12,13,16,64 in random order: Responses() must yield exactly what the model's Connection.reader forwards (theorem only_pong_consumed: only a 12-byte tcp.pong and tcp.authentificationNonce messages are kept). "
+         "go.adnl.connfaults: the fault stream (every kind x region in turn) through the real Connection: Responses() must yield the frames before the faulty one and then NOTHING, not even an empty packet; go.adnl.slowconsumer: the consumer of Responses() sleeps 1.5 s, every packet must still arrive; go.adnl.dialdeadline: NewConnection with a 300 ms dial context, both directions still work 700 ms later; go.adnl.pingrace (THOROUGH tier, real time 28 s): 8 goroutines hammer Connection.Send across ~9 keep-alive pings, every frame the server reads must be intact (the quick tier has the regenerated obligation every_socket_write_is_under_mu of the ClientOrder translator, judged by C12). "
          "go.adnl.coalesced: the server writes the handshake confirmation and the first 1..6 packets in ONE Write, or cut at "
          "every byte position 0..140 (inside / right behind the confirmation) and at random later positions: every packet must "
          "come out of Responses(). thorough adds the 8 MiB-64 / 8 MiB-63 payloads once.",
